@@ -212,6 +212,11 @@ class SetMembersMixin:
                         with suppress(AliasResolutionError, CyclicAliasError, BuiltinModuleError):
                             # Only actual modules are merged: an alias is a reference to an object living elsewhere.
                             if not value.is_alias and value.is_module and value.filepath != member.filepath:
+                                # Attach the new module first: merging moves members from one module to the other,
+                                # and a module that was a member of one of them before (its parent still says so)
+                                # would end up being its own ancestor.
+                                if not self.is_collection:  # type: ignore[attr-defined]
+                                    value.parent = self  # type: ignore[assignment]
                                 with suppress(ValueError):
                                     value = merge_stubs(member, value)  # type: ignore[arg-type]
                     aliases = list(member.aliases.values())
